@@ -162,6 +162,15 @@ Theorem C08_foreign_type_refused_from_tlv : forall t,
 Proof. exact from_tlv_foreign_refused. Qed.
 Print Assumptions C08_foreign_type_refused_from_tlv.
 
+(* an octet that is no TLV type at all: ValueError from every decoder *)
+Theorem C08_unknown_type_refused : forall ty l r, is_tlv_type ty = false ->
+  tlv_unpack (ty :: l :: r) = Err EValue /\ entity_unpack (ty :: l :: r) = Err EValue /\
+  flow_unpack (ty :: l :: r) = Err EValue /\ msg_unpack (ty :: l :: r) = Err EValue /\
+  fault_unpack (ty :: l :: r) = Err EValue /\ fsreq_unpack (ty :: l :: r) = Err EValue /\
+  fsresp_unpack (ty :: l :: r) = Err EValue.
+Proof. exact unpack_unknown_type. Qed.
+Print Assumptions C08_unknown_type_refused.
+
 (* TlvHolder.to_<cls> with a generic TLV of another type inside: TlvTypeMissmatch *)
 Theorem C08_holder_generic_foreign : forall cls t,
   is_tlv_type cls = true -> tlv_type t <> cls -> holder_to cls (HGeneric t) = Err ETlvMismatch.
